@@ -1004,6 +1004,11 @@ impl Translator {
                         self.translate_expr(array, offset_table, mono, st);
                         self.translate_expr(index, offset_table, mono, st);
                         self.emit(st, Instr::GetIndex(Reg::Top, Reg::Top));
+                        // an element of type void occupies no stack slot (the access itself is
+                        // still bounds-checked)
+                        if self.get_ty(mono, expr.node()) == Some(SolvedType::Void) {
+                            self.emit(st, Instr::Pop);
+                        }
                     }
                     _ => {
                         // interface method Index::index_get()
